@@ -38,6 +38,7 @@ IMPORTS_SPEC = 'From PyRTL Require Import Netlist.Sem Netlist.WFDefs Netlist.Spe
 IMPORTS_MODEL = ('From PyRTL Require Import Netlist.Sem Netlist.WFDefs Netlist.SpecHarness '
                  'Pass.Opt Pass.OptHarness.')
 COQ_TARGETS = ['theories/Netlist/SpecHarness.vo', 'theories/Pass/OptHarness.vo']
+PROPS_FILES = ['theories/Props/C04.v']
 TRUSTED = ['Pass/Opt.v: hand-written model of passes.py (tied structurally + behaviourally on every run); '
            'Gen/ConstFold.v is regenerated from the source',
            'steady-state proviso: registers the real pass eliminates start at the value the ORIGINAL design '
@@ -82,7 +83,7 @@ def apply_pass(name, block):
 
 # ------------------------------------------------------------------ designs
 
-def extend_design(rng, d, heavy):
+def extend_design(rng, d, heavy, maxw=8):
     """add the structure C04 is about to the working block of `d` (API only)"""
     block = d.block
     names = {'n': 0}
@@ -96,6 +97,9 @@ def extend_design(rng, d, heavy):
     if not pool:
         return
     outs = []
+
+    def wchoice(ws):
+        return min(rng.choice(ws), maxw)
 
     def operand(width=None):
         w = rng.choice(pool)
@@ -134,12 +138,12 @@ def extend_design(rng, d, heavy):
 
     kinds = ['constexpr', 'oneconst', 'swapdup', 'swapdup', 'samedup', 'constdup', 'regconst',
              'memwrite', 'dead', 'chain', 'muxdup', 'constexpr', 'oneconst']
-    n = rng.randint(5, 10) if heavy else rng.randint(3, 6)
+    n = rng.randint(5, 10) if heavy else rng.randint(2, 4)
     for _ in range(n):
         k = rng.choice(kinds)
         d.ops.append('c04:' + k)
         if k == 'constexpr':
-            w = rng.choice([1, 1, 2, 3, 4, 8])
+            w = wchoice([1, 1, 2, 3, 4, 8])
             op = rng.choice('&|^n~')
             if op == '~':
                 c = ~konst(w)
@@ -160,7 +164,7 @@ def extend_design(rng, d, heavy):
             pool.append(t)
             outs.append(t)
         elif k in ('swapdup', 'samedup'):
-            w = rng.choice([1, 2, 3, 4, 5])
+            w = wchoice([1, 2, 3, 4, 5])
             a, b = operand(w), operand(w)
             op = rng.choice('&|^n+*=-<>c')
             t1 = binop(op, a, b)
@@ -171,7 +175,7 @@ def extend_design(rng, d, heavy):
             else:
                 outs.append(pyrtl.concat(t1, t2))
         elif k == 'muxdup':
-            w = rng.choice([1, 2, 4])
+            w = wchoice([1, 2, 4])
             s = operand()
             s = s[rng.randrange(len(s))]
             a, b = operand(w), operand(w)
@@ -180,7 +184,7 @@ def extend_design(rng, d, heavy):
             pool.extend([t1, t2])
             outs.extend([t1, t2])
         elif k == 'constdup':
-            w = rng.choice([1, 2, 3, 4])
+            w = wchoice([1, 2, 3, 4])
             a = operand(w)
             v = gen_designs.boundary_value(rng, w)
             op = rng.choice('&|^n+*=-<>c')
@@ -192,7 +196,7 @@ def extend_design(rng, d, heavy):
             pool.extend([t1, t2])
             outs.extend([t1, t2])
         elif k == 'regconst':
-            w = rng.choice([1, 1, 2, 4])
+            w = wchoice([1, 1, 2, 4])
             c = gen_designs.boundary_value(rng, w)
             rv = None if rng.random() < 0.5 else gen_designs.boundary_value(rng, w)
             r = pyrtl.Register(w, fresh('rc'), reset_value=rv)
@@ -213,8 +217,8 @@ def extend_design(rng, d, heavy):
                 pool.append(r2)
                 outs.append(r2 ^ operand(w))
         elif k == 'memwrite':
-            aw = rng.randint(1, 3)
-            bw = rng.choice([1, 2, 4])
+            aw = rng.randint(1, 3 if heavy else 2)
+            bw = wchoice([1, 2, 4])
             m = pyrtl.MemBlock(bitwidth=bw, addrwidth=aw, name=fresh('mem'),
                                max_read_ports=None, max_write_ports=None, asynchronous=True)
             d.mems.append(m)
@@ -229,7 +233,7 @@ def extend_design(rng, d, heavy):
             pool.append(rd)
             outs.append(rd)
         elif k == 'dead':
-            w = rng.choice([1, 2, 4])
+            w = wchoice([1, 2, 4])
             t = binop(rng.choice('&|^n+-'), operand(w), operand(w))
             t2 = ~t                                     # a dead chain of two
             if rng.random() < 0.4:                      # a dead register
@@ -290,21 +294,45 @@ def directed(kind):
 DIRECTED = ['nand_const', 'memwr_dup', 'swap_noncomm']
 
 
-def build(ctx, i, form):
-    """-> (design, block in the requested form); names and memory ids are reproducible"""
+GATE_OPS = ['&', '|', '^', '~', 'nand', '+', '-', '<', '>', '==', 'mux', 'const', 'slice', 'index',
+            'concat', 'memrd', 'zext']
+_ATTEMPT = {}
+
+
+def _raw_design(ctx, i, gate, attempt):
     pyrtl.wire._reset_wire_indexers()
     pyrtl.memory._reset_memory_indexer()
-    if i < len(DIRECTED):
-        d = directed(DIRECTED[i])
+    rng = ctx.sub_rng('design', i, gate, attempt)
+    if gate:
+        d = gen_designs.make_design(rng, n_ops=rng.randint(1, 3), wide_prob=0.0, max_width=2,
+                                    allow_mem=(rng.random() < 0.3), allow_rom=False, ops_subset=GATE_OPS)
     else:
-        rng = ctx.sub_rng('design', i)
-        gate = form != 'word'
-        if gate or i % 4 == 3:
-            d = gen_designs.make_design(rng, n_ops=rng.randint(3, 9), wide_prob=0.0, max_width=4,
-                                        allow_rom=(rng.random() < 0.3))
-        else:
-            d = gen_designs.make_design(rng, n_ops=rng.randint(4, 16), wide_prob=0.08)
-        extend_design(rng, d, heavy=not gate)
+        d = gen_designs.make_design(rng, n_ops=rng.randint(4, 16), wide_prob=0.08)
+    extend_design(rng, d, heavy=not gate, maxw=(2 if gate else 8))
+    return d
+
+
+def build(ctx, i, form, cap=120):
+    """-> (design, block in the requested form); names and memory ids are reproducible.
+    Gate-level forms use a smaller base design (re-drawn, deterministically, until its
+    synthesized form has at most `cap` nets) so that the Coq evaluation stays cheap."""
+    if i < len(DIRECTED):
+        pyrtl.wire._reset_wire_indexers()
+        pyrtl.memory._reset_memory_indexer()
+        d = directed(DIRECTED[i])
+    elif form == 'word':
+        d = _raw_design(ctx, i, False, 0)
+    else:
+        key = (ctx.seed, i)
+        if key not in _ATTEMPT:
+            for attempt in range(8):
+                d = _raw_design(ctx, i, True, attempt)
+                with quiet():
+                    n = len(pyrtl.synthesize(block=d.block).logic)
+                if n <= cap:
+                    break
+            _ATTEMPT[key] = attempt
+        d = _raw_design(ctx, i, True, _ATTEMPT[key])
     block = d.block
     if form != 'word':
         with quiet():
@@ -419,7 +447,7 @@ def model_exact(rows_w, rows_n, names):
     return wires, nets
 
 
-def quotient(wires, nets):
+def quotient(wires, nets, intern):
     """structural canonical form, insensitive to which member of a CSE class survived:
     every plain wire is replaced by the (interned) structure of its driver"""
     plain = set()
@@ -428,7 +456,6 @@ def quotient(wires, nets):
     for od, args, dest in nets:
         if dest != '':
             driver[dest] = (od, args)
-    intern = {}
 
     def iid(t):
         if t not in intern:
@@ -466,8 +493,8 @@ def quotient(wires, nets):
     return h, driver
 
 
-def canon_quot(wires, nets, named):
-    h, driver = quotient(wires, nets)
+def canon_quot(wires, nets, named, intern):
+    h, driver = quotient(wires, nets, intern)
     out = []
     for od, args, dest in nets:
         hs = [h(a, named) for a in args]
@@ -479,6 +506,16 @@ def canon_quot(wires, nets, named):
 
 
 # ------------------------------------------------------------------ the check
+
+def snapshot(block):
+    return (set(block.logic), set(block.wirevector_set), dict(block.wirevector_by_name))
+
+
+def restore(block, snap):
+    block.logic = set(snap[0])
+    block.wirevector_set = set(snap[1])
+    block.wirevector_by_name = dict(snap[2])
+
 
 def net_stats(block):
     return len(block.logic), len(block.wirevector_set)
@@ -538,9 +575,9 @@ def has_dup_const_memwrite(block):
 
 def run(ctx):
     quick = ctx.tier == 'quick'
-    ndesigns = (len(DIRECTED) + 14) if quick else (len(DIRECTED) + 160)
+    ndesigns = (len(DIRECTED) + 10) if quick else (len(DIRECTED) + 120)
     ncyc_max = 6 if quick else 12
-    max_model_nets = 260 if quick else 500
+    max_model_nets = 320 if quick else 700
     cases = []          # one per (design, form): shared dump + stimulus + spec
     spec_exprs = []
     model_exprs = []
@@ -549,38 +586,40 @@ def run(ctx):
         forms = FORMS if i >= len(DIRECTED) else ['word', 'synth']
         for form in forms:
             rng = ctx.sub_rng('stim', i, form)
-            # ---- phase A: which registers do the folding passes eliminate?
+            # ---- one build per (design, form); the in-place passes are undone by restoring
+            #      the block's net / wire sets (they never mutate nets or wire objects)
             try:
                 d, block = build(ctx, i, form)
             except pyrtl.PyrtlError as e:
                 ctx.count('build_failed', type(e).__name__)
                 continue
             nnets0 = len(block.logic)
-            if nnets0 > (1500 if quick else 4000):
+            if nnets0 > (320 if quick else 700):
                 ctx.count('skipped', 'too-large')
                 continue
             with quiet():
                 block.sanity_check()
-            regnames0 = {r.name for r in block.wirevector_subset(pyrtl.Register)}
+            snap0 = snapshot(block)
+            regs0 = set(block.wirevector_subset(pyrtl.Register))
+            # ---- phase A: which registers do the folding passes eliminate?
             eliminated = set()
             for pname in ('optimize', 'constant_propagation'):
                 try:
-                    _, b2 = build(ctx, i, form)
-                    apply_pass(pname, b2)
-                    apply_pass(pname, b2)
-                    eliminated |= regnames0 - {r.name for r in b2.wirevector_subset(pyrtl.Register)}
+                    apply_pass(pname, block)
+                    apply_pass(pname, block)
+                    eliminated |= regs0 - set(block.wirevector_subset(pyrtl.Register))
                 except Exception:
                     pass    # reported in phase B
+                restore(block, snap0)
             # ---- the original: dump, stimulus, steady-state proviso
-            d, block = build(ctx, i, form)
-            ncyc = rng.randint(3, ncyc_max)
+            ncyc = rng.randint(3, ncyc_max if form == 'word' else 4)
             regs, regmap, memmap, inputs = make_stimulus(rng, block, ncyc)
             steady = {}
             if eliminated:
                 pre_inputs = (inputs * (len(regs) + 2))[:len(regs) + 2]
                 sim0, _ = simulate(block, regmap, memmap, pre_inputs)
                 for r in regs:
-                    if r.name in eliminated:
+                    if r in eliminated:
                         steady[r.name] = sim0.regvalue[r]
                         regmap[r] = sim0.regvalue[r]
             dump = nlx.Dump(block)
@@ -597,7 +636,7 @@ def run(ctx):
                         ncyc=ncyc, inputs=inputs, regmap={r.name: v for r, v in regmap.items()},
                         memmap={m.name: c for m, c in memmap.items()}, steady=steady,
                         orig_nets=orig_nets, orig_by_dest=orig_by_dest, nnets0=nnets0,
-                        widths={w.name: w.bitwidth for w in dump.wires}, runs=[],
+                        widths={w.name: w.bitwidth for w in dump.wires}, runs=[], block=block,
                         named={w.name for w in dump.wires
                                if isinstance(w, (pyrtl.Input, pyrtl.Output, pyrtl.Register))},
                         ops=list(d.ops))
@@ -610,22 +649,12 @@ def run(ctx):
             # ---- phase B: the real passes
             reqs = []
             for pname in PASSES:
-                try:
-                    _, b = build(ctx, i, form)
-                except Exception:
-                    continue
-                regs_b = {r.name: r for r in b.wirevector_subset(pyrtl.Register)}
-                mems_b = {m.name: m for m in block_mems(b)}
-                regmap_b = {regs_b[nm]: v for nm, v in case['regmap'].items() if nm in regs_b}
-                memmap_b = {mems_b[nm]: c for nm, c in case['memmap'].items() if nm in mems_b}
+                restore(block, snap0)
+                b = block
                 for reps in (1, 2):
                     run_ = dict(pname=pname, reps=reps, error=None)
                     before = net_stats(b)
-                    ops_before = {}
-                    for n in b.logic:
-                        ops_before[n.op] = ops_before.get(n.op, 0) + 1
                     regs_before = len(b.wirevector_subset(pyrtl.Register))
-                    consts_before = len(b.wirevector_subset(pyrtl.Const))
                     try:
                         apply_pass(pname, b)
                     except Exception as e:
@@ -635,11 +664,13 @@ def run(ctx):
                         break
                     after = net_stats(b)
                     run_['changed'] = (after != before)
-                    run_['nets_removed'] = before[0] - after[0]
-                    ctx.count('nets_removed:' + pname, min(before[0] - after[0], 50) // 5 * 5 if before[0] - after[0] > 4 else before[0] - after[0])
-                    ctx.count('total_nets_removed', pname, before[0] - after[0])
+                    nr = before[0] - after[0]
+                    ctx.count('nets_removed_per_application:' + pname,
+                              nr if nr < 5 else '%d-%d' % (nr // 10 * 10, nr // 10 * 10 + 9) if nr >= 10 else '5-9')
+                    ctx.count('total_nets_removed', pname, nr)
                     ctx.count('total_wires_removed', pname, before[1] - after[1])
-                    ctx.count('total_registers_removed', pname, regs_before - len(b.wirevector_subset(pyrtl.Register)))
+                    ctx.count('total_registers_removed', pname,
+                              regs_before - len(b.wirevector_subset(pyrtl.Register)))
                     run_['in_names'] = sorted(w.name for w in b.wirevector_subset(pyrtl.Input))
                     run_['out_names'] = sorted(w.name for w in b.wirevector_subset(pyrtl.Output))
                     try:
@@ -649,22 +680,20 @@ def run(ctx):
                     except Exception as e:
                         run_['sanity'] = '%s: %s' % (type(e).__name__, str(e)[:200])
                     try:
-                        sim, tracer = simulate(b, regmap_b, memmap_b, inputs)
+                        sim, tracer = simulate(b, regmap, memmap, inputs)
                         run_['trace'] = [[tracer.trace[nm][t] for nm in out_names] for t in range(ncyc)] \
                             if all(nm in tracer.trace for nm in out_names) else None
                         run_['tracer'] = tracer
-                        run_['block_order'] = None
                     except Exception as e:
                         run_['trace'] = None
                         run_['sim_error'] = '%s: %s' % (type(e).__name__, str(e)[:200])
                     run_['res_nets'] = [str(n) for n in b.logic] if after[0] < 80 else None
                     run_['exact'] = real_exact(b)
-                    run_['block'] = b if reps == 2 else None
-                    if reps == 1:
-                        # keep what culprit() needs before the block is mutated again
-                        run_['culprit_now'] = None
+                    run_['snap'] = snapshot(b)
                     case['runs'].append(run_)
-                    reqs.append((pname, reps))
+                    if reps == 1 or pname in ('optimize', 'constant_propagation', 'common_subexp_elimination'):
+                        reqs.append((pname, reps))     # model tie (the search covers every run)
+            restore(block, snap0)
             case['reqs'] = reqs if nnets0 <= max_model_nets else []
             if nnets0 > max_model_nets:
                 ctx.count('model_skipped', 'original has more than %d nets' % max_model_nets)
@@ -678,14 +707,20 @@ def run(ctx):
             cases.append(case)
 
     jobs = 14
-    spec_results = ctx.coq_eval(spec_exprs, IMPORTS_SPEC, tag='c04spec', shard=max(1, len(spec_exprs) // jobs + 1),
-                                jobs=jobs)
+    import time as _time
+    t_py = _time.time() - ctx.t0
+    t1 = _time.time()
+    spec_results = ctx.coq_eval(spec_exprs, IMPORTS_SPEC, tag='c04spec', shard=2, jobs=jobs)
+    t_spec = _time.time() - t1
+    t1 = _time.time()
     model_results = None
     try:
         model_results = ctx.coq_eval(model_exprs, IMPORTS_MODEL, tag='c04model',
-                                     shard=max(1, len(model_exprs) // jobs + 1), jobs=jobs)
+                                     shard=1, jobs=jobs)
     except Exception as e:
         ctx.model_mismatch('Pass/Opt.v could not be evaluated: %s' % str(e)[-800:], {})
+    ctx.notes.append('phases: python %.1fs, spec eval %.1fs (%d exprs), model eval %.1fs (%d exprs)' % (
+        t_py, t_spec, len(spec_exprs), _time.time() - t1, len(model_exprs)))
     model_by_case = {}
     if model_results is not None:
         for ci, res in zip(model_index, model_results):
@@ -749,15 +784,8 @@ def run(ctx):
             if bad:
                 op, net = '?', None
                 if r.get('tracer') is not None:
-                    blk = r.get('block')
-                    if blk is None:     # reps == 1: the block has since been optimised again; rebuild
-                        try:
-                            _, blk = build(ctx, c['i'], c['form'])
-                            apply_pass(pname, blk)
-                        except Exception:
-                            blk = None
-                    if blk is not None:
-                        op, net = culprit(c['orig_by_dest'], blk, spec_by_name, r['tracer'], c['ncyc'])
+                    restore(c['block'], r['snap'])
+                    op, net = culprit(c['orig_by_dest'], c['block'], spec_by_name, r['tracer'], c['ncyc'])
                 sig = signature_for(pname, op, net)
                 ctx.spec_violation(sig, '%s (x%d) on a %s design changes Output %s at cycle %d: reference %d, got %d '
                                         '(first wrong net of the original: %s)' % (
@@ -769,10 +797,19 @@ def run(ctx):
             m = model_by_case.get(ci, {}).get((pname, reps))
             if m is None:
                 continue
-            (rows_w, rows_n), mtr = m
-            mwf = mtr[0][0]
+            rows_w, rows_n, mtr = m
+            mwf, api_ok, side_ok = mtr[0]
             mtrace = mtr[1:]
             ctx.count('tie_cases', pname)
+            ctx.count('api_built_assumption', 'holds' if api_ok == 1 else 'fails')
+            if api_ok != 1:
+                ctx.model_mismatch('api_built (Pass/OptCheck.v) is false on an API-built design: the assumption of the '
+                                   'C04 theorems does not cover design %d %s' % (c['i'], c['form']), rep)
+            if pname == '_remove_unlistened_nets':
+                ctx.count('unlistened_ok_premise', 'holds' if side_ok == 1 else 'fails')
+                if side_ok != 1:
+                    ctx.model_mismatch('premise unlistened_ok of C04_remove_unlistened_preserves is false '
+                                       '(design %d %s x%d)' % (c['i'], c['form'], reps), rep)
             if mtrace != r['trace']:
                 if not bad:
                     ctx.model_mismatch('Output traces of the model result and the real result of %s differ '
@@ -783,7 +820,8 @@ def run(ctx):
             mw, mn = model_exact(rows_w, rows_n, c['names'])
             rw, rn = r['exact']
             if pname in CSE_LIKE:
-                same = canon_quot(mw, mn, c['named']) == canon_quot(rw, rn, c['named']) \
+                intern = {}
+                same = canon_quot(mw, mn, c['named'], intern) == canon_quot(rw, rn, c['named'], intern) \
                     and len(mw) == len(rw)
             else:
                 same = canon_exact(mw, mn) == canon_exact(rw, rn)
